@@ -64,6 +64,11 @@ type OrderedMap struct {
 	// It is setup when child map is returned from parent's Get.  It is also setup when
 	// new child is added to parent through Set or Insert.
 	parentUpdater parentUpdater
+
+	// mutableElementIDs is the set of value IDs of child containers that are currently
+	// elements of this map and have a parent updater installed by this map.  It lets an
+	// outdated child (removed or overwritten) be recognized without reading the map's slabs.
+	mutableElementIDs map[ValueID]struct{}
 }
 
 var _ Value = &OrderedMap{}
@@ -641,9 +646,15 @@ func (m *OrderedMap) Set(comparator ValueComparator, hip HashInputProvider, key 
 	// This is to prevent potential data loss because the overwritten inlined slab was not in
 	// storage and any future changes to it would have been lost.
 
-	storable, _, _, err = uninlineStorableIfNeeded(m.Storage, storable)
+	var existingValueID ValueID
+	storable, existingValueID, _, err = uninlineStorableIfNeeded(m.Storage, storable)
 	if err != nil {
 		return nil, err
+	}
+
+	// Overwritten array/map is not an element of this map anymore.
+	if existingValueID != emptyValueID {
+		delete(m.mutableElementIDs, existingValueID)
 	}
 
 	return storable, nil
@@ -739,9 +750,15 @@ func (m *OrderedMap) Remove(comparator ValueComparator, hip HashInputProvider, k
 		return nil, nil, err
 	}
 
-	valueStorable, _, _, err = uninlineStorableIfNeeded(m.Storage, valueStorable)
+	var removedValueID ValueID
+	valueStorable, removedValueID, _, err = uninlineStorableIfNeeded(m.Storage, valueStorable)
 	if err != nil {
 		return nil, nil, err
+	}
+
+	// Removed array/map is not an element of this map anymore.
+	if removedValueID != emptyValueID {
+		delete(m.mutableElementIDs, removedValueID)
 	}
 
 	return keyStorable, valueStorable, nil
@@ -837,6 +854,9 @@ func (m *OrderedMap) PopIterate(fn MapPopIterationFunc) error {
 		extraData: extraData,
 		inlined:   inlined,
 	}
+
+	// All elements are removed, so no child is an element of this map anymore.
+	clear(m.mutableElementIDs)
 
 	if !m.Inlined() {
 		// Save root slab
@@ -989,7 +1009,19 @@ func (m *OrderedMap) setCallbackWithChild(
 
 	vid := c.ValueID()
 
+	// mutableElementIDs is lazily initialized.
+	if m.mutableElementIDs == nil {
+		m.mutableElementIDs = make(map[ValueID]struct{})
+	}
+	m.mutableElementIDs[vid] = struct{}{}
+
 	c.setParentUpdater(func() (found bool, err error) {
+
+		// Child was removed from or overwritten in this map: it is an outdated reference.
+		// Don't read this map's slabs, they may not exist anymore.
+		if _, exist := m.mutableElementIDs[vid]; !exist {
+			return false, nil
+		}
 
 		// Avoid unnecessary write operation on parent container.
 		// Child value was stored as SlabIDStorable (not inlined) in parent container,
